@@ -9,7 +9,8 @@ SPEC = {
     ],
     "rule": ("rapid-generated grpc/json ammo over the example TargetService (Hello/Auth/List/Order): payload field subsets, unicode and "
              "template-looking strings, int64 as number (|v| <= 2^53) or as string (full range), camelCase or snake_case keys, unknown "
-             "fields, ill-typed values, unknown methods; metadata maps (lower-case keys, printable values); handlers that stall beyond "
+             "fields, ill-typed values, unknown methods; metadata maps (printable values; one key in three - the entry marker too - written the HTTP way: Capitalised-Per-Word, "
+             "UPPER-CASE or mixed case, which gRPC carries in lower case; no two keys of an entry differ in case only); handlers that stall beyond "
              "the timeout; timeout 150 ms - 1 s; shared-client on/off; 1-4 instances; one file in six is 150-400 entries long (beyond the provider's read-ahead, so its ammo objects "
              "get recycled); pool built by config.DecodeAndValidate, real grpc "
              "gun (reflection + dynamic messages), real phout. Non-trivial = metadata beyond the entry marker, or an invalid entry mixed "
@@ -17,12 +18,19 @@ SPEC = {
              "TestGRPCScenario: generated grpc/scenario descriptions (YAML): a csv users source handed out by a prepare preprocessor "
              "(source.users[next]), a variables source, a leading Auth call and 1-3 List/Order calls with multiplicities 1-3; payload "
              "templates from the Auth response of the same invocation (token, userId) and from sources; 0-4 metadata entries per call "
-             "whose values are literals or templates over the source, the row of this invocation or the captured token / userId; 1-10 "
+             "whose values are literals or templates over the source, the row of this invocation or the captured token / userId; two descriptions in three hold 1-2 further scenarios (weights 1-3) that refer to the SAME call definitions "
+             "(auth and 1-4 references to the List/Order calls, in an order and with multiplicities of their own), so that one instance "
+             "shoots the scenarios in mixed order; every scenario then lists a marker call of its own (Hello, name = this invocation's "
+             "token) right after auth, by which the server's log tells the scenario of an invocation; 1-10 "
              "invocations by 1-4 instances, gun timeout 0.4 / 1 / 3 s (every call must arrive with a deadline no later than it). The recording server issues a unique token and user id per Auth call; calls are grouped "
              "into invocations by that token. Non-trivial = a metadata value that differs per invocation and >= 2 invocations."),
     "floors": {"TestGRPCScenario/metadata_per_invocation_value": 0.4, "TestGRPCScenario/metadata_from_earlier_response": 0.25,
                "TestGRPCScenario/per_invocation_metadata_with_concurrent_instances": 0.2, "TestGRPCScenario/multiplicity_gt_1": 0.4,
-               "TestGRPCScenario/rows_wrap_around": 0.3,
+               "TestGRPCScenario/rows_wrap_around": 0.3, "TestGRPCScenario/several_scenarios": 0.5,
+               "TestGRPCScenario/several_scenarios_shot": 0.35, "TestGRPCScenario/scenarios_in_mixed_order": 0.25,
+               "TestGRPCScenario/shared_call_per_invocation_metadata": 0.3,
+               "TestGRPCScenario/shared_call_per_invocation_metadata_one_instance": 0.05,
+               "TestGRPCJSON/metadata_key_with_capitals": 0.5, "TestGRPCJSON/metadata_marker_key_with_capitals": 0.35,
                "TestGRPCJSON/metadata": 0.5, "TestGRPCJSON/invalid_mixed_with_valid": 0.3, "TestGRPCJSON/stalled_call": 0.1,
                "TestGRPCJSON/shared_client": 0.3, "TestGRPCJSON/instances_ge_2": 0.4, "TestGRPCJSON/invalid_unknown_method": 0.2,
                "TestGRPCJSON/invalid_wrong_type": 0.2, "TestGRPCJSON/invalid_unknown_field": 0.2, "TestGRPCJSON/file_longer_than_read_ahead": 0.08},
@@ -34,8 +42,9 @@ SPEC = {
                  "never, yield one non-200 sample and do not disturb the others. Scenario calls: every call of every "
                  "invocation reaches the server with the method, the payload (token and user id captured from this invocation's Auth "
                  "response, source values) and every metadata pair rendered for THIS invocation (reference rendering from what the "
-                 "server issued and the rows the harness wrote), the listed number of times; users[next] hands out rows round-robin; "
-                 "one sample per call tagged <scenario>.<call tag>."),
+                 "server issued and the rows the harness wrote), the number of times the invocation's scenario lists it; users[next] hands out rows round-robin (asserted for "
+                 "single-scenario descriptions); one sample per call tagged <scenario>.<call tag>. Metadata keys are looked up "
+                 "case-insensitively at the server (gRPC sends them in lower case)."),
         "note": ("JSON numbers above 2^53 are only generated as strings (the ammo is decoded through float64 by design of JSON maps). "
                  "Entries are matched to server calls by an x-entry metadata marker."),
     },
